@@ -734,6 +734,14 @@ class ExcelCompiler:
                     raise
                 cell = self.cell_map.get(addr.address, None)
                 formula = cell and cell.formula.base_formula
+                if verify_tree and cell is not None and addr not in verified:
+                    # the cells below a cell which failed are verified too
+                    verified.add(addr)
+                    try:
+                        to_verify.extend(a for a in cell.needed_addresses
+                                         if a not in verified)
+                    except Exception:  # pragma: no cover
+                        pass
                 exc_str = str(exc)
                 exc_str_split = exc_str.split('\n')
 
